@@ -66,6 +66,37 @@ func (c *Ctx) iterMustPass(rule, keyPrefix string, fn *ssa.Function, what string
 	if fn == nil {
 		return
 	}
+	// a same-package helper that dispatches to the required calls outside any loop of its own (a per-element
+	// "check this one" helper) counts as a required call here; inside it, every success exit must have passed one
+	helpers := map[*ssa.Function]bool{}
+	if c.iterDepth < 2 {
+		for _, b := range fn.Blocks {
+			for _, in := range b.Instrs {
+				cl, ok := in.(*ssa.Call)
+				if !ok || pred(&cl.Call) {
+					continue
+				}
+				h := cl.Call.StaticCallee()
+				if h == nil || h.Pkg == nil || h == fn || len(h.Blocks) == 0 || len(h.Blocks) > 40 || helpers[h] {
+					continue
+				}
+				root := fn
+				for root.Parent() != nil {
+					root = root.Parent()
+				}
+				hc := ssau.CallsIn(h, pred)
+				if h.Pkg != root.Pkg || len(hc) == 0 || ssau.EnclosingLoopHeader(hc[0].Block()) != nil || ssau.EnclosingLoopHeader(b) == nil {
+					continue
+				}
+				helpers[h] = true
+				ssau.WithParamSubst(cl, func() { c.exitMustPass(rule, keyPrefix, h, what, pred, passVal) })
+			}
+		}
+	}
+	if len(helpers) > 0 {
+		inner := pred
+		pred = func(cm *ssa.CallCommon) bool { return inner(cm) || helpers[cm.StaticCallee()] }
+	}
 	calls := ssau.CallsIn(fn, pred)
 	if len(calls) == 0 {
 		// the element loop may have been extracted into a helper of the same package: then the rule must hold
@@ -159,6 +190,106 @@ func (c *Ctx) iterMustPass(rule, keyPrefix string, fn *ssa.Function, what string
 	if n == 0 {
 		c.R.Check(rule, keyPrefix+"|all-iterations", true, c.posOf(calls[0]), fmt.Sprintf("%s: every completed iteration passes a checked call to %s (%d call sites)", fname(fn), what, len(calls)))
 	}
+}
+
+// exitMustPass: every success exit of the (loop-free dispatch) helper fn has passed a checked call matched by
+// pred; each way around them is reported under the caller's key prefix, named by the deciding branch.
+func (c *Ctx) exitMustPass(rule, keyPrefix string, fn *ssa.Function, what string, pred func(*ssa.CallCommon) bool, passVal bool) {
+	calls := ssau.CallsIn(fn, pred)
+	cut, unchecked := ssau.CheckedCut(fn, calls, passVal)
+	for _, u := range unchecked {
+		name := "?"
+		if o := ssau.CalleeObj(u.Common()); o != nil {
+			name = o.Name()
+		}
+		c.R.Check(rule, keyPrefix+"|unchecked:"+name, false, c.posOf(u), "verdict of "+name+" is neither tested nor returned")
+	}
+	r := ssau.ReachFromEntry(fn, cut)
+	ec := c.classifier(fn, G1Opt{})
+	n := 0
+	for _, ret := range ec.SuccessExitsIn(r, cut) {
+		iff, arm := ssau.DecisionBefore(ret.Block())
+		if iff == nil {
+			// a join: name the branch of the one incoming edge that is reachable without a passed call
+			var live []*ssa.BasicBlock
+			for _, p := range ret.Block().Preds {
+				if r.EdgeReachable(p, ret.Block()) {
+					live = append(live, p)
+				}
+			}
+			if len(live) == 1 {
+				if i, ok := live[0].Instrs[len(live[0].Instrs)-1].(*ssa.If); ok {
+					iff, arm = i, live[0].Succs[0] == ret.Block()
+				} else {
+					iff, arm = ssau.DecisionBefore(live[0])
+				}
+			}
+		}
+		desc := "merge:" + ret.Block().Comment
+		pos := c.posOf(ret)
+		if iff != nil {
+			desc = fmt.Sprintf("%s=%v", ssau.CondString(iff.Cond), arm)
+			pos = c.posOf(iff)
+		}
+		n++
+		c.R.Check(rule, keyPrefix+"|bypass:"+desc, false, pos, fmt.Sprintf("%s: returns success without a passed call to %s when %s", fname(fn), what, desc))
+	}
+	if n == 0 {
+		c.R.Check(rule, keyPrefix+"|helper "+fn.Name()+" exits", true, c.pos(fn.Pos()), fmt.Sprintf("%s: every success exit passes a checked call to %s (%d call sites)", fname(fn), what, len(calls)))
+	}
+}
+
+// viaCall is a call matched by a predicate, either directly in the analysed function (via == nil) or inside a
+// same-package helper that the function calls at via.
+type viaCall struct {
+	call ssa.CallInstruction
+	via  *ssa.Call
+}
+
+func (v viaCall) anchor() ssa.Instruction {
+	if v.via != nil {
+		return v.via
+	}
+	return v.call
+}
+
+// with runs f with the helper's parameters standing for the arguments of the call it was reached through.
+func (v viaCall) with(f func()) {
+	if v.via != nil {
+		ssau.WithParamSubst(v.via, f)
+		return
+	}
+	f()
+}
+
+func callsVia(fn *ssa.Function, pred func(*ssa.CallCommon) bool) []viaCall {
+	var out []viaCall
+	seen := map[*ssa.Function]bool{}
+	for _, b := range fn.Blocks {
+		for _, in := range b.Instrs {
+			ci, ok := in.(ssa.CallInstruction)
+			if !ok {
+				continue
+			}
+			if pred(ci.Common()) {
+				out = append(out, viaCall{call: ci})
+				continue
+			}
+			cl, ok := in.(*ssa.Call)
+			if !ok {
+				continue
+			}
+			h := cl.Call.StaticCallee()
+			if h == nil || h.Pkg == nil || h.Pkg != fn.Pkg || h == fn || len(h.Blocks) == 0 || len(h.Blocks) > 40 || seen[h] {
+				continue
+			}
+			seen[h] = true
+			for _, hc := range ssau.CallsIn(h, pred) {
+				out = append(out, viaCall{call: hc, via: cl})
+			}
+		}
+	}
+	return out
 }
 
 // Outcome labels for three-valued decision tables.
@@ -390,55 +521,59 @@ func runC05(c *Ctx) {
 			condCmp(isLenOf(func(v ssa.Value) bool { return paramNamed(v, "programHashes") }), isLenOf(func(v ssa.Value) bool { return paramNamed(v, "programs") }), token.EQL, true), G1Opt{})
 		cross, _ := c.constVal("core/contract", "PrefixCrossChain")
 		nver := 0
-		for _, call := range ssau.CallsIn(rp, verifiers) {
+		for _, vc := range callsVia(rp, verifiers) {
+			vc := vc
+			call := vc.call
 			nver++
-			name := ssau.CalleeObj(call.Common()).Name()
-			key := fmt.Sprintf("RunPrograms|%s", name)
-			args := call.Common().Args
-			// data provenance
-			okData := ssau.DependsOn(args[1], func(x ssa.Value) bool { return paramNamed(x, "data") })
-			c.R.Check("K-verify", key+"|data", okData, c.posOf(call), "verifier data must derive from RunPrograms' data parameter")
-			// program provenance: programs[i] with the same index as programHashes[i]
-			okProg := ssau.DependsOn(args[0], func(x ssa.Value) bool {
-				ia, ok := x.(*ssa.IndexAddr)
-				return ok && paramNamed(ia.X, "programs")
-			})
-			c.R.Check("K-verify", key+"|program", okProg, c.posOf(call), "verified program must be programs[i]")
-			if name == "checkCrossChainSignatures" {
-				continue
-			}
-			// cross-chain prefixed schnorr call is exempt from the hash equality (legacy TODO in source): identified by being guarded by prefix==CrossChain
-			cutCross := ssau.NewCut()
-			for _, i := range ssau.Ifs(rp) {
-				if m, arm := condCmp(func(v ssa.Value) bool { return methodCallNamed(v, "GetPrefixType") }, isConstInt(cross), token.EQL, true)(i); m {
-					cutCross.AddEdge(i.Block(), ssau.Arm(i, arm))
+			vc.with(func() {
+				name := ssau.CalleeObj(call.Common()).Name()
+				key := fmt.Sprintf("RunPrograms|%s", name)
+				args := call.Common().Args
+				// data provenance
+				okData := ssau.DependsOn(args[1], func(x ssa.Value) bool { return paramNamed(x, "data") })
+				c.R.Check("K-verify", key+"|data", okData, c.posOf(call), "verifier data must derive from RunPrograms' data parameter")
+				// program provenance: programs[i] with the same index as programHashes[i]
+				okProg := ssau.DependsOn(args[0], func(x ssa.Value) bool {
+					ia, ok := x.(*ssa.IndexAddr)
+					return ok && paramNamed(ia.X, "programs")
+				})
+				c.R.Check("K-verify", key+"|program", okProg, c.posOf(call), "verified program must be programs[i]")
+				if name == "checkCrossChainSignatures" {
+					return
 				}
-			}
-			if !ssau.ReachFromEntry(rp, cutCross).Instr(call) {
-				c.R.Info("G2-hash", key+"|cross-chain arm", c.posOf(call), "call sits on the cross-chain prefix arm (no code-hash binding there; multisig of arbiters)")
-				continue
-			}
-			c.G2("G2-hash", key+"|ownerHash==codeHash", rp, call, "ownerHash.IsEqual(codeHash)", func(i *ssa.If) (bool, bool) {
-				x, neg := ssau.StripNot(i.Cond)
-				call, ok := x.(*ssa.Call)
-				if !ok || !methodCallNamed(x, "IsEqual") || len(call.Call.Args) != 2 {
+				// cross-chain prefixed schnorr call is exempt from the hash equality (legacy TODO in source): identified by being guarded by prefix==CrossChain
+				cutCross := ssau.NewCut()
+				for _, i := range ssau.Ifs(rp) {
+					if m, arm := condCmp(func(v ssa.Value) bool { return methodCallNamed(v, "GetPrefixType") }, isConstInt(cross), token.EQL, true)(i); m {
+						cutCross.AddEdge(i.Block(), ssau.Arm(i, arm))
+					}
+				}
+				if !ssau.ReachFromEntry(rp, cutCross).Instr(vc.anchor()) {
+					c.R.Info("G2-hash", key+"|cross-chain arm", c.posOf(call), "call sits on the cross-chain prefix arm (no code-hash binding there; multisig of arbiters)")
+					return
+				}
+				c.G2("G2-hash", key+"|ownerHash==codeHash", rp, vc.anchor(), "ownerHash.IsEqual(codeHash)", func(i *ssa.If) (bool, bool) {
+					x, neg := ssau.StripNot(i.Cond)
+					call, ok := x.(*ssa.Call)
+					if !ok || !methodCallNamed(x, "IsEqual") || len(call.Call.Args) != 2 {
+						return false, false
+					}
+					fromCode := func(v ssa.Value) bool {
+						return ssau.DependsOn(v, func(y ssa.Value) bool { return ssau.IsFieldOf(y, "Program", "Code") }) &&
+							ssau.DependsOn(v, func(y ssa.Value) bool { return methodCallNamed(y, "ToCodeHash") })
+					}
+					fromHash := func(v ssa.Value) bool {
+						return ssau.DependsOn(v, func(y ssa.Value) bool {
+							ia, ok := y.(*ssa.IndexAddr)
+							return ok && paramNamed(ia.X, "programHashes")
+						})
+					}
+					a, b := call.Call.Args[0], call.Call.Args[1]
+					if (fromCode(a) && fromHash(b) && !fromCode(b)) || (fromCode(b) && fromHash(a) && !fromCode(a)) {
+						return true, !neg
+					}
 					return false, false
-				}
-				fromCode := func(v ssa.Value) bool {
-					return ssau.DependsOn(v, func(y ssa.Value) bool { return ssau.IsFieldOf(y, "Program", "Code") }) &&
-						ssau.DependsOn(v, func(y ssa.Value) bool { return methodCallNamed(y, "ToCodeHash") })
-				}
-				fromHash := func(v ssa.Value) bool {
-					return ssau.DependsOn(v, func(y ssa.Value) bool {
-						ia, ok := y.(*ssa.IndexAddr)
-						return ok && paramNamed(ia.X, "programHashes")
-					})
-				}
-				a, b := call.Call.Args[0], call.Call.Args[1]
-				if (fromCode(a) && fromHash(b) && !fromCode(b)) || (fromCode(b) && fromHash(a) && !fromCode(a)) {
-					return true, !neg
-				}
-				return false, false
+				})
 			})
 		}
 		c.R.FloorCheck("G1-run verifier call sites", nver, 5)
@@ -501,7 +636,7 @@ func runC05(c *Ctx) {
 					return false, false
 				})
 				keyFromPub := ssau.DependsOn(up.Key, func(x ssa.Value) bool { return paramNamed(x, "publicKeys") })
-				keyFromSig := ssau.DependsOn(up.Key, func(x ssa.Value) bool { return paramNamed(x, "signatures") })
+				keyFromSig := ssau.DependsOnPrecise(up.Key, func(x ssa.Value) bool { return paramNamed(x, "signatures") })
 				c.R.Check("G-multisig", "VerifyMultisigSignatures|key derives from public key", keyFromPub && !keyFromSig, c.posOf(up), "the distinctness key must be a function of the public key only")
 			}
 		}
